@@ -998,6 +998,15 @@ def corr_mcca(seed, tier):
             R.cmp(key, bool(np.max(np.abs(got - exp[key])) <= 1e-9 * scaleC), small, got.ravel()[:5].tolist(), exp[key].ravel()[:5].tolist())
         got = unbits(ans["lam"], (k,))
         R.cmp("lam", close(got, exp["lam"], 1e-12), small, got.tolist(), exp["lam"].tolist())
+        if nv == 2 and not small["pca"] and not any(small["c"]):
+            # what the theorem `mcca_two_view_eigenvalue_is_canonical_correlation` concludes, on the model's own variates: equal variances and
+            # correlation = eigenvalue (up to the `eps` shift of D, relative to the smallest variance of the data)
+            v0, v1 = unbits(ans["variates"][0], (n, k)), unbits(ans["variates"][1], (n, k))
+            cor = np.array([np.corrcoef(v0[:, j], v1[:, j])[0, 1] for j in range(k)])
+            var_ratio = v0.var(axis=0) / v1.var(axis=0)
+            tol_eps = 1e-6 / max(min(float(np.var(exp["transform"][0])), 1.0), 1e-12) * 10 + 1e-6
+            R.cmp("two_view_eigenvalue_is_correlation", bool(np.abs(cor - got).max() <= max(1e-4, tol_eps) and np.abs(var_ratio - 1).max() <= max(1e-3, 10 * tol_eps)),
+                  small, {"corr": cor.tolist(), "var_ratio": var_ratio.tolist()}, got.tolist())
         W = unbits(ans["weights"], (Q, k))
         blk = np.array(blkQ)
         for v in range(nv):
